@@ -270,7 +270,7 @@ Qed.
 
 Lemma west_step_nz W m s x w : w <> 0 ->
   west_step R_ops (W, m, s) (x, w) =
-  (W + w, m + w / (W + w) * (x - m), s + w * (x - m) * (x - (m + w / (W + w) * (x - m)))).
+  (W + w, m + w / (W + w) * (x - m), s + W * (w / (W + w) * (x - m)) * (x - m)).
 Proof.
   intros N. unfold west_step. cbn [o_is_zero R_ops].
   destruct (Req_EM_T w 0) as [E|_]; [contradiction|reflexivity].
@@ -293,11 +293,11 @@ Proof.
       destruct IH as (I0 & I1 & I2). repeat split; lra.
     + rewrite (west_step_nz W m s x w N). specialize (Hw N).
       specialize (IH (W + w) (m + w / (W + w) * (x - m))
-                     (s + w * (x - m) * (x - (m + w / (W + w) * (x - m))))
+                     (s + W * (w / (W + w) * (x - m)) * (x - m))
                      (a0 + w) (a1 + x * w) (a2 + w * (x * x))).
       assert (G1 : (W + w) * (m + w / (W + w) * (x - m)) = a1 + x * w).
       { rewrite <- H1. field. exact Hw. }
-      assert (G2 : s + w * (x - m) * (x - (m + w / (W + w) * (x - m))) =
+      assert (G2 : s + W * (w / (W + w) * (x - m)) * (x - m) =
                    a2 + w * (x * x) - (W + w) * (m + w / (W + w) * (x - m)) * (m + w / (W + w) * (x - m))).
       { rewrite H2. field. exact Hw. }
       specialize (IH ltac:(lra) G1 G2 Hok).
@@ -469,6 +469,37 @@ Proof.
   intros [x w] Hin. cbn [snd]. apply Hnz. exact (in_combine_r _ _ _ _ Hin).
 Qed.
 
+(* the D6 repair does not change the value in exact arithmetic: the pre-repair update
+   s += w (x - m)(x - m') and West's update s += W (w/(W+w) (x - m)) (x - m) coincide
+   whenever no running weight sum vanishes (outside K3) *)
+Lemma west_fold_v1_agrees l : forall W m s, okw W l ->
+  fold_left (west_step_v1 R_ops) l (W, m, s) = fold_left (west_step R_ops) l (W, m, s).
+Proof.
+  induction l as [|[x w] t IH]; intros W m s Hok; [reflexivity|].
+  cbn [fold_left]. destruct Hok as [Hw Hok]. cbn [snd] in Hw, Hok.
+  destruct (Req_EM_T w 0) as [E|N].
+  - rewrite (west_step_zero _ x w E).
+    assert (E1 : west_step_v1 R_ops (W, m, s) (x, w) = (W, m, s)).
+    { unfold west_step_v1. cbn [o_is_zero R_ops].
+      destruct (Req_EM_T w 0) as [_|N]; [reflexivity|contradiction]. }
+    rewrite E1. subst w. replace (W + 0) with W in Hok by ring. apply IH. exact Hok.
+  - rewrite (west_step_nz W m s x w N). specialize (Hw N).
+    assert (E1 : west_step_v1 R_ops (W, m, s) (x, w) =
+                 (W + w, m + w / (W + w) * (x - m), s + W * (w / (W + w) * (x - m)) * (x - m))).
+    { unfold west_step_v1. cbn [o_is_zero R_ops].
+      destruct (Req_EM_T w 0) as [E|_]; [contradiction|].
+      cbn [o_add o_sub o_mul o_div R_ops]. f_equal. field. exact Hw. }
+    rewrite E1. apply IH. exact Hok.
+Qed.
+
+Theorem west_v1_agrees : forall data ws ddof, length ws = length data -> ~ K3 ws ->
+  west_v1 R_ops data ws ddof = west R_ops data ws ddof.
+Proof.
+  intros data ws ddof HL HK. unfold west_v1, west. cbn [o_zero R_ops].
+  rewrite west_fold_v1_agrees; [reflexivity|].
+  apply okw_of_notK3; [exact HL|]. intros H. apply HK. apply K3from_0. exact H.
+Qed.
+
 (* ------------------------------------------------------------------ *)
 (* S5: powi, raw moments, central moments                              *)
 (* ------------------------------------------------------------------ *)
@@ -630,6 +661,7 @@ Print Assumptions nonneg_not_K3.
 Print Assumptions west_nonneg.
 Print Assumptions K3_witness.
 Print Assumptions west_skip_agrees.
+Print Assumptions west_v1_agrees.
 Print Assumptions powi_R.
 Print Assumptions moments_R.
 Print Assumptions horner_at_0.
